@@ -4,9 +4,9 @@ RULE = ("seeded random histories on a fresh NNS deployment: 2 TLDs (one may expi
         "owners/admins/receivers; register (incl. re-registration of unexpired and expired names, expire from {<=0, 1 s, 5 s, 100 s, 1000 s, 1 y, "
         "5 y+200 s, 9 y+100 s, 10 y}), registerTLD, transfer (to self, users, contracts with and without onNEP11Payment, malformed), renew "
         "(years 0..11, default overload), updateSOA, setAdmin, add/set/deleteRecords over A/AAAA/CNAME/TXT incl. bursts past 16 records, CNAME "
-        "chains of 0..4 links incl. cycles and trailing dots, sub-name records before registrations (F15), setRecord with another record's "
+        "chains of 0..4 links incl. cycles and trailing dots, sub-name records before registrations (F15), the conflict rule at every depth (records 1..4 labels below a not-yet-registered name plus sibling / exact / one-below neighbours, then isAvailable and register of the name, deletion, registration), setRecord with another record's "
         "value (F16), setPrice incl. 0; signer per op drawn from {owner, admin, former owner, former admin, parent owner, stranger, committee, "
-        "nobody, owner+other}; block time advanced by ms steps, jumps, and to exp-1/exp/exp+1 of registered names and to the instant where a "
+        "nobody, owner+other}, a role matrix (one method called by every role in turn) and the directed history setAdmin(A); transfer to B; A / former owner mutate; block time advanced by ms steps, jumps, and to exp-1/exp/exp+1 of registered names and to the instant where a "
         "renewal meets the ten-year limit; after every invocation the read API (ownerOf, properties, isAvailable, getRecords, getAllRecords, "
         "resolve, balanceOf, tokensOf, totalSupply, roots, tokens) is queried for the touched names at the block time and at expiration "
         "boundaries; every 4th case is the malformed stream (bad names, hashes, type/id outside the byte range, huge integers) and is "
